@@ -251,6 +251,8 @@ def kind(v):
         return 'bool'
     if isinstance(v, (int, float, D)):
         return 'num'
+    if isinstance(v, dict):
+        return 'dict'
     return type(v).__name__
 
 
@@ -260,7 +262,7 @@ def same(a, b):
     if isinstance(a, (list, tuple)):
         return len(a) == len(b) and all(same(x, y) for x, y in zip(a, b))
     if isinstance(a, dict):
-        return list(a.keys()) == list(b.keys()) and all(same(a[k], b[k]) for k in a)
+        return list(a.keys()) == list(b.keys()) and all(same(dict.__getitem__(a, k), dict.__getitem__(b, k)) for k in a)
     return a == b
 
 
@@ -289,6 +291,11 @@ def cases(ctx):
         ln = rnd.randint(3, 30)
         alphabet = rnd.choice([LO, DO, LO + DO])
         yield ('seq', rnd.choice('ABC'), tuple(rnd.choice(alphabet) for _ in range(ln)))
+    # a host mapping whose own __missing__ inserts (defaultdict): lookups that are documented as non-inserting (get, in, keys, len, del, remove) must
+    # behave as on the model; index reads and compound writes (which subscript, and so trigger the host's __missing__) are left out
+    safe = [o for o in DO if o[0] in ('get', 'getd', 'din', 'dlen', 'keys', 'values', 'items', 'ddel', 'dremove', 'dwrite')]
+    for _ in range(ctx.scale(60, 1500)):
+        yield ('ddseq', rnd.choice('AC'), tuple(rnd.choice(safe) for _ in range(rnd.randint(2, 10))))
     for _ in range(ctx.scale(3, 40)):
         size = rnd.choice([9998, 9999, 10000, 10001])
         ln = rnd.randint(3, 8)
@@ -298,7 +305,7 @@ def cases(ctx):
 
 def run_case(case, ctx):
     from smartquery.exceptions import ParserError
-    if case[0] == 'seq':
+    if case[0] in ('seq', 'ddseq'):
         l0, d0 = STARTS[case[1]]
         seq = case[2]
     else:
@@ -308,6 +315,10 @@ def run_case(case, ctx):
     ctx.P = ctx.P1 if (hash(repr(case)) & 1) else ctx.P0
     ctx.count('cases_on_caching_parser' if ctx.P is ctx.P1 else 'cases_on_plain_parser')
     names = {'l': copy.deepcopy(l0), 'd': copy.deepcopy(d0)}
+    if case[0] == 'ddseq':
+        import collections
+        names['d'] = collections.defaultdict(lambda: 'made-by-__missing__', copy.deepcopy(d0))
+        ctx.count('cases_on_a_host_defaultdict')
     ml, md = copy.deepcopy(l0), copy.deepcopy(d0)
     hl, hd = names['l'], names['d']
     done = []
